@@ -114,3 +114,60 @@ def targets():
         ("analysis/zhit/interpolation", ["_interpolate_phase", "_generate_interpolation_options"], ()),
     ], title="stage functions are pure (no module-level state)")
     return [target_reconstruct(), target_offset(), target_adjust_offset(), pure]
+
+
+def target_offset_weights():
+    """_calculate_modulus_offset: the offset is fitted by minimising _offset_residual (weights * squared error, proved above) with
+    EXACTLY the weights it was given -- on every path; with that, a point of weight zero contributes nothing to the offset.  The
+    function refuses an all-zero or a negative weight array and a shape mismatch, nothing else."""
+    from . import dataflow as DF
+    from .dataflow import T, opaque
+    qual = "_calculate_modulus_offset"
+
+    def run(sess: Session):
+        n = 0
+
+        def once():
+            calls = []
+
+            class Parameters:
+                def add(self, *a, **k):
+                    pass
+
+            class Fit:
+                params = type("P", (), {"valuesdict": lambda s: {"offset": T.var("offset*")}})()
+
+            def minimize(fcn, params, args=(), **kw):
+                calls.append((fcn, args, kw))
+                return Fit()
+            ns = {"where": opaque("where"), "Parameters": Parameters, "minimize": minimize, "MinimizerResult": None, "len": lambda x: T.var("len"),
+                  "ZHITError": type("ZHITError", (Exception,), {}), "_offset_residual": "THE-RESIDUAL"}
+            O.load(OFF, [qual], ns)
+            fit_, exp_, w = T.var("ln_modulus_fit"), T.var("ln_modulus_exp"), T.var("weights")
+            err, out = None, None
+            try:
+                out = ns[qual](fit_, exp_, w)
+            except ns["ZHITError"] as ex:
+                err = ex
+            return calls, out, err, (fit_, exp_, w)
+        for log, (calls, out, err, (fit_, exp_, w)), facts in DF.explore(once):
+            n += 1
+            tag = "[" + ",".join(f"{a}={'T' if v else 'F'}" for a, v in log) + "]"
+            if err is not None:
+                sess.check("post", [], z3.BoolVal(not calls), 0, label=f"a refusal happens before anything is fitted{tag}")
+                continue
+            ok = len(calls) == 1 and calls[0][0] == "THE-RESIDUAL" and len(calls[0][1]) == 3
+            sess.check("post", [], z3.BoolVal(ok), 0, label=f"one minimisation of _offset_residual with (reconstruction, ln|Z|, weights){tag}")
+            if ok:
+                DF.eq_check(sess, f"the weights of the minimisation are the weights that were passed in, unchanged{tag}", calls[0][1][2], w)
+                DF.eq_check(sess, f"the reconstruction handed to the minimisation is the one passed in{tag}", calls[0][1][0], fit_)
+                DF.eq_check(sess, f"the experimental ln|Z| handed to the minimisation is the one passed in{tag}", calls[0][1][1], exp_)
+        sess.check("cover", [], z3.BoolVal(n >= 4), 0, label=f"paths={n}")
+    return (f"{OFF}:{qual}", OFF, qual, run)
+
+
+_targets_c11_core = targets
+
+
+def targets():      # noqa: F811
+    return _targets_c11_core() + [target_offset_weights()]
